@@ -74,6 +74,14 @@ let dispatch (fn : string) : jv -> jv = match fn with
   | "spnego_serve" -> serve_j
   | "http_do" -> http_do_j
   | "asrep_verify" -> asrep_verify_j
+  | "der_encode" -> der_encode_j
+  | "der_decode" -> der_decode_j
+  | "der_len" -> der_len_j
+  | "parse_len" -> parse_len_j
+  | "enc_int" -> enc_int_j
+  | "dec_int" -> dec_int_j
+  | "enc_time" -> enc_time_j
+  | "dec_time" -> dec_time_j
   | "tgsrep_verify" -> tgsrep_verify_j
   | "spnego_accept" -> accept_sec_context_j
   | "send_to_kdc_visible" -> send_to_kdc_visible_j
